@@ -89,10 +89,10 @@ def step (s : Oam.Oam) (w : List String) : Oam.Oam × String :=
       | some n => ok { s with oam := fillBytes n } "ok"
       | none => (s, "bad-op")
   | ["r", a] => match addr? a with
-      | some a => finV (Oam.read s a)
+      | some a => finV (Oam.cpuRead s a)
       | none => (s, "bad-op")
   | ["w", a, v] => match addr? a, byte? v with
-      | some a, some v => fin (Oam.write s a v)
+      | some a, some v => fin (Oam.cpuWrite s a v)
       | _, _ => (s, "bad-op")
   | ["pr", a] => match addr? a with
       | some a => finV (Oam.ppuRead s a)
